@@ -136,6 +136,12 @@ BadIndex0 ==
     /\ res' = "err" /\ act' = [op |-> "bad", p |-> 0, v |-> "idx0"]
     /\ UNCHANGED <<slot, pv, dl>> /\ Fixed
 
+\* another feature of the stack starts / stops watching the present value (a change-of-value detection is bound to the
+\* object, later unbound): commanding is not affected, and the minimum on/off machinery keeps watching
+Observe(on) ==
+    /\ res' = "ok" /\ act' = [op |-> IF on THEN "obs" ELSE "unobs", p |-> 0, v |-> Null]
+    /\ UNCHANGED <<slot, pv, dl>> /\ Fixed
+
 \* MinOnOffTask.process_task: priority 6 is relinquished; if that changes the present value the new state is held
 HoldExpire ==
     /\ dl = 0
@@ -169,6 +175,7 @@ Cmds ==
     \/ \E p \in BadPrios, v \in Values \cup {Null} : BadWrite(p, v)
     \/ \E p \in Prios : BadWrite(p, Undefined)
     \/ BadIndex0
+    \/ \E on \in BOOLEAN : Observe(on)
     \/ HoldExpire
     \/ \E d \in Ticks : Tick(d)
 
